@@ -30,6 +30,13 @@ def obs {α} (r : RSt) (o : Out α) (f : α → String) : RSt × String :=
   | .panic => reply r "panic"
   | .oob => reply r "oob"
 
+/-- two successive `Iterator::nth` calls on an iterator that still has to yield `l` (an overshooting
+`nth` exhausts it), then everything that is left -/
+def nth2 {α} (sh : α → String) (fmt : List α → String) (a b : Nat) (l : List α) : String :=
+  let o (x : Option α) : String := match x with | some x => sh x | none => "none"
+  let l1 := l.drop (a + 1)
+  s!"{o (l.drop a).head?} {o (l1.drop b).head?} {fmt (l1.drop (b + 1))}"
+
 def rstep (r : RSt) (toks : List String) : RSt × String :=
   let bad := (r, "bad-op")
   match toks with
@@ -81,6 +88,13 @@ def rstep (r : RSt) (toks : List String) : RSt × String :=
     | some bs => mutate r (extend (withCapacity bs.length) bs) | none => bad
   | ["iter"] => obs r (iterAll r.a) fmtBoolList
   | ["aiter"] => obs r (iterAll r.a) fmtBoolList
+  | ["it_nth", kind, a, b] => match parseNat a, parseNat b with
+    | some a, some b =>
+      if kind = "bits" || kind = "abits" then obs r (iterAll r.a) (nth2 fmtBool fmtBoolList a b)
+      else if kind = "ones" then obs r (iterOnes r.a) (nth2 toString fmtNatList a b)
+      else if kind = "zeros" then obs r (iterZeros r.a) (nth2 toString fmtNatList a b)
+      else bad
+    | _, _ => bad
   | ["ones"] => obs r (iterOnes r.a) fmtNatList
   | ["zeros"] => obs r (iterZeros r.a) fmtNatList
   | ["count_ones"] => obs r (countOnes r.a) toString
